@@ -77,6 +77,15 @@ def desugar(loc, relfile, fn_paths, rules, _pass=0, optional=()):
                     rewrites.append((a, b, new))
                     records.append({"fn": fp, "rule": "D52 X.iter().copied().collect()  =>  pv_collect_copied(&X)   (stub: a collection with the elements of X in order; the target type is the declared one)",
                                     "original": src[a:b], "rewritten": new})
+            if "D60" in rules:
+                # BUF.extend(OPT.iter().map(|x| E));  [OPT an Option]  =>  if let Some(x) = &OPT { BUF.pv_push(E); }
+                seg = src[it["start"]:it["end"]]
+                for m in re.finditer(r"([a-z_][a-z_0-9]*)\.extend\(\s*([a-z_][a-z_0-9\.]*?)\s*\.iter\(\)\s*\.map\(\|([a-z_][a-z_0-9]*)\| ([^\n]+?)\),?\s*\);", seg):
+                    a, b = it["start"] + m.start(), it["start"] + m.end()
+                    new = f"if let Some({m.group(3)}) = &{m.group(2)} {{ {m.group(1)}.pv_push({m.group(4)}); }}"
+                    rewrites.append((a, b, new))
+                    records.append({"fn": fp, "rule": "D60 BUF.extend(OPT.iter().map(|x| E));  (OPT an Option)  =>  if let Some(x) = &OPT { BUF.pv_push(E); }",
+                                    "original": src[a:b], "rewritten": new})
             if "D59" in rules:
                 # E.unwrap_or_else(|| { panic!(..) })  =>  E.unwrap()   (the same control flow: a panic when E is None; only the message differs)
                 seg = src[it["start"]:it["end"]]
